@@ -43,9 +43,13 @@ func WithHistogramDataPointAttributes(attrs Map) func(HistogramDataPoint) {
 func WithHistogramDataPointStatistics(values []float64) func(HistogramDataPoint) {
 	return func(hdp HistogramDataPoint) {
 		hdp.raw.Sum = new(float64)
+		hdp.raw.Count = uint64(len(values))
+		if len(values) == 0 {
+			// a persisted timer that received nothing in this interval
+			return
+		}
 		hdp.raw.Min = &values[0]
 		hdp.raw.Max = &values[len(values)-1]
-		hdp.raw.Count = uint64(len(values))
 
 		for _, v := range values {
 			*hdp.raw.Sum += v
